@@ -38,25 +38,30 @@ Definition overlay (got old : bytes) : bytes := got ++ drop (lenN got) old.
 
 Inductive attempt_res :=
 | AReply (h : hdr) (p : bytes)        (* complete answer received *)
-| AFail (hb : bytes).                 (* system_error; the header object now holds hb *)
+| AFail (hb : bytes) (dm : bytes).    (* system_error; the header object now holds hb, the memory of the request string dm *)
+
+(* the answer body is received into a temporary vector (`std::vector<char> d(h.size); socket_.read(buffer(d));`) and assigned to
+   the caller's string - which is also the REQUEST payload of a retry - only once it is complete: a failure inside the body
+   leaves the request string as it was, whatever part of the body (got) had arrived *)
+Definition body_failure_leaves (got mem : bytes) : bytes := mem.
 
 (* schedules: client write, client read.  The server handles a frame only when it has arrived completely. *)
 Definition attempt (ws rs : list N) (hb mem : bytes) (now : Z) (c : cache) : attempt_res * cache :=
   match hdr_parse hb with
-  | None => (AFail hb, c)
+  | None => (AFail hb mem, c)
   | Some h =>
       let packet := hb ++ take (h_size h) mem in
       match sock_xfer ws packet (40 + h_size h) with
-      | (false, _, _, _) => (AFail hb, c)                       (* request not delivered: the server drops the partial frame *)
+      | (false, _, _, _) => (AFail hb mem, c)                   (* request not delivered: the server drops the partial frame *)
       | (true, _, _, _) =>
           match srv_handle now h (take (h_size h) mem) c with
           | (rh, rp, c1) =>
               let stream := hdr_bytes rh ++ rp in
               match sock_xfer rs stream 40 with
-              | (false, got, _, _) => (AFail (overlay got hb), c1)
+              | (false, got, _, _) => (AFail (overlay got hb) mem, c1)
               | (true, got, rs1, rest) =>
                   match sock_xfer rs1 rest (h_size rh) with
-                  | (false, _, _, _) => (AFail got, c1)           (* header object = answer header *)
+                  | (false, gotb, _, _) => (AFail got (body_failure_leaves gotb mem), c1)   (* header object = answer header *)
                   | (true, p, _, _) => (AReply rh p, c1)
                   end
               end
@@ -75,11 +80,11 @@ Definition transmit (ws1 rs1 : list N) (up : bool) (ws2 rs2 : list N) (h : hdr) 
   : tx_res * cache :=
   match attempt ws1 rs1 (restore (hdr_bytes h) (hdr_bytes h)) mem now c with
   | (AReply rh rp, c1) => (TxReply rh rp, c1)
-  | (AFail hb, c1) =>
+  | (AFail hb dm, c1) =>
       if up then
-        match attempt ws2 rs2 (restore (hdr_bytes h) hb) mem now c1 with
+        match attempt ws2 rs2 (restore (hdr_bytes h) hb) dm now c1 with      (* the retry sends what the request string holds NOW *)
         | (AReply rh rp, c2) => (TxReply rh rp, c2)
-        | (AFail _, c2) => (TxExn, c2)
+        | (AFail _ _, c2) => (TxExn, c2)
         end
       else (TxExn, c1)
   end.
